@@ -2082,7 +2082,7 @@ class PseudoNetCDFFile(PseudoNetCDFSelfReg, object):
                     sliceoi = tuple(sliceoi)
                     point_arrays.append(np.expand_dims(
                         varo[sliceoi], axis=concatax))
-                newvals = np.concatenate(point_arrays, axis=concatax)
+                newvals = np.ma.concatenate(point_arrays, axis=concatax)
             else:
                 # integers become unit slices so that they are not
                 # broadcast with an index list as numpy advanced indices
